@@ -12,19 +12,22 @@ let alts : blk list ref = ref []
 let vbks : blk list ref = ref []
 let btcs : blk list ref = ref []
 let hid : z list ref = ref []
+let vts : (z * z) list ref = ref [(Z0, z_of_int 1603044490)]
 let atvs : (string, atv) Hashtbl.t = Hashtbl.create 64
 let vtbs : (string, vtb) Hashtbl.t = Hashtbl.create 64
 let pds : (string, body) Hashtbl.t = Hashtbl.create 64
 let aparent : (string, string) Hashtbl.t = Hashtbl.create 64
+let bts : (z * z) list ref = ref [(Z0, z_of_int 1296688602)]
+let vnow = ref 1700000000
 let settle = ref 50 and vsettle = ref 400 and ki = ref 5
 
 let root = { b_id = Z0; b_parent = z_of_int (-1); b_height = Z0 }
 let reset () =
-  alts := [root]; vbks := [root]; btcs := [root]; hid := [];
+  alts := [root]; vbks := [root]; btcs := [root]; hid := []; vnow := 1700000000; bts := [(Z0, z_of_int 1296688602)]; vts := [(Z0, z_of_int 1603044490)];
   Hashtbl.reset atvs; Hashtbl.reset vtbs; Hashtbl.reset pds; Hashtbl.reset aparent;
   settle := 50; vsettle := 400; ki := 5
 
-let world () = { alts = !alts; vbks = !vbks; btcs = !btcs; hidden = !hid }
+let world () = { alts = !alts; vbks = !vbks; btcs = !btcs; hidden = !hid; vtimes = !vts; btimes = !bts; vnow = z_of_int !vnow }
 let params () = default_params (z_of_int !settle) (z_of_int !vsettle) (z_of_int !ki)
 
 let has tr id = List.exists (fun b -> b.b_id = id) tr
@@ -37,8 +40,8 @@ let oname pfx = function None -> "-" | Some v -> name pfx v
 let oz s = if s = "-" then None else Some (zid s)
 
 let kind = function
-  | EDup -> "dup" | EVbkPrev -> "vbkprev" | EVtbContaining -> "vtbcontaining" | EVtbMany -> "vtbmany"
-  | EBtcCtx -> "btcctx" | EBtcPrev -> "btcprev" | EVNoEndorsed -> "vnoendorsed" | EVDiffers -> "vdiffers"
+  | EDup -> "dup" | EVbkPrev -> "vbkprev" | EVbkTime -> "vbktime" | EVtbContaining -> "vtbcontaining" | EVtbMany -> "vtbmany"
+  | EBtcCtx -> "btcctx" | EBtcPrev -> "btcprev" | EBtcTime -> "btctime" | EVNoEndorsed -> "vnoendorsed" | EVDiffers -> "vdiffers"
   | EVExpired -> "vexpired" | ESfEndorsed -> "sfendorsed" | ESfContext -> "sfcontext" | EDiffers -> "differs"
   | EExpired -> "expired"
 
@@ -66,8 +69,13 @@ let handle op args = match op, args with
       | _ -> ()) kv;
     "ok"
   | "decl", ["alt"; a; p; h] -> add alts a p (Printf.sprintf "%x" (int_of_string h)); Hashtbl.replace aparent a p; "ok"
-  | "decl", ["vbk"; v; p; h] -> add vbks v p (Printf.sprintf "%x" (int_of_string h)); "ok"
-  | "decl", ["btc"; b; p; h] -> add btcs b p (Printf.sprintf "%x" (int_of_string h)); "ok"
+  | "decl", ["vbk"; v; p; h; ts] ->
+    if not (has !vbks (zid v)) then vts := (zid v, z_of_int (int_of_string ts)) :: !vts;
+    add vbks v p (Printf.sprintf "%x" (int_of_string h)); "ok"
+  | "decl", ["btc"; b; p; h; ts] ->
+    if not (has !btcs (zid b)) then bts := (zid b, z_of_int (int_of_string ts)) :: !bts;
+    add btcs b p (Printf.sprintf "%x" (int_of_string h)); "ok"
+  | "decl", ["now"; n] -> vnow := int_of_string n; "ok"
   | "decl", ["hidden"; a] -> hid := zid a :: !hid; "ok"
   | "decl", ["atv"; t; e; bop; "honest"] ->
     Hashtbl.replace atvs t (honest_atv (world ()) (z_of_int !ki) (zid t) (zid e) (zid bop)); "ok"
@@ -87,6 +95,8 @@ let handle op args = match op, args with
      | None -> "SKIP"
      | Some x -> Printf.sprintf "%s %s %s %s %s" (name "a" x.t_endorsed) (name "v" x.t_bop) (hex_of_z x.t_h)
                    (oname "a" x.t_k1) (oname "a" x.t_k2))
+  | "on", [_; "btsof"; b] -> string_of_int (int_of_z (btime (world ()) (zid b)))
+  | "on", [_; "vtsof"; v] -> string_of_int (int_of_z (vtime (world ()) (zid v)))
   | "on", [_; "vtbinfo"; w] ->
     (match Hashtbl.find_opt vtbs w with
      | None -> "SKIP"
